@@ -418,7 +418,7 @@ def _evidence(P, ctx, obligations, discharged, results, violations, assum, build
         "property_id": P.id,
         "tier": ctx.tier if ctx.tier in ("quick", "thorough") else "quick",
         "seed": ctx.seed,
-        "level": P.level,
+        "level": P.level if P.level in ("exploration", "fault_enumeration", "model_checking", "proof", "translation_validation", "other") else "other",
         "coverage": {
             "obligations": len(obligations),
             "discharged": len(discharged),
